@@ -68,6 +68,7 @@ func runC18(c *Ctx) {
 	ruleReflectNil(c, "C18.10", "engine", "storage")
 	ruleSessionStateMovesTogether(c, "C18.11")
 	ruleCatalogNotATarget(c, "C18.12")
+	c17Use(c, "C18.13")
 }
 
 func c18PanicSources(c *Ctx, rule string) {
